@@ -1,7 +1,6 @@
 SPECIFICATION TraceSpec
 CONSTANTS
   Calibrate = FALSE
-  NComp = 4
-  Variant = "ok"
+  TolScale = "1"
 POSTCONDITION Accepted
 CHECK_DEADLOCK FALSE
